@@ -18,6 +18,8 @@ use serde_json::{json, Value};
 use std::collections::BTreeMap;
 use vharness::*;
 
+mod net;
+
 const PEERS: [&str; 3] = ["p1", "p2", "p3"];
 const NQ: usize = 2;
 
@@ -490,8 +492,25 @@ fn main() {
         lines.extend(run_random(nb, &mut rng, rlen, &fault));
         nb += 1;
     }
+    let mut netsum = json!({});
+    if let Some(n) = args.get("net") {
+        // real nodes over loopback TCP run on their own multi-threaded runtime
+        drop(_guard);
+        let default = std::panic::take_hook();
+        std::panic::set_hook(Box::new(move |info| {
+            net::PANICS.lock().unwrap().push(format!("{info}"));
+            let _ = &default;
+        }));
+        let (l, s) = net::run_net(n.parse().unwrap(), seed, nb);
+        if let Some(path) = args.get("netout") {
+            write_lines(path, &l);
+        } else {
+            lines.extend(l);
+        }
+        netsum = s;
+    }
     let events = lines.iter().filter(|l| l.contains("\"e\":\"step\"")).count();
     let panics = lines.iter().filter(|l| l.contains("\"panic\":true")).count();
     write_lines(&out, &lines);
-    println!("SUMMARY {}", json!({"behaviours": nb, "events": events, "not_applicable_stimulus": drift, "panics": panics}));
+    println!("SUMMARY {}", json!({"behaviours": nb, "events": events, "not_applicable_stimulus": drift, "panics": panics, "net": netsum}));
 }
